@@ -205,7 +205,7 @@ func execHard(f []string) string {
 		limKeep := new(big.Int).Set(p.PowLimit)
 		times, bits := parseChain(f[12:])
 		c := blockchain.VerifNewC09Chain(p, times, bits)
-		got, err := c.B.CalcNextRequiredDifficulty(time.Unix(i64(f[11]), 0))
+		got, err := c.B.CalcNextRequiredDifficulty(subSecond(i64(f[11])))
 		if p.PowLimit.Cmp(limKeep) != 0 {
 			return "params-mutated"
 		}
